@@ -66,8 +66,10 @@ def run(run, replay=None):
         ids = rng.choice(paths)
         unknown = None
         r = rng.random()
-        if r < 0.08:
-            unknown = [(rng.randrange(len(ids)), 0, rng.choice(['x-custom', 'generator']), rng.choice(['1', 'abc']))]
+        if r < 0.12:
+            unknown = [(rng.randrange(len(ids)), 0, rng.choice(['x-custom', 'generator', 'preamble', 'meta', 'diff', 'files', 'changes', 'parent_section',
+                                                                     'meta_section', 'preamble_section', 'content', 'options']),
+                        rng.choice(['1', 'abc']))]
         data, info = fgen.build_file(ids, rng, unknown=unknown, main_enc=rng.choice(['utf-8', 'utf-16', 'latin-1']))
         res = rdriver.read_bytes(data)
         if res[1] != 'done':
